@@ -54,6 +54,10 @@ func genFaultWorkload(r *rand.Rand, p *Plan, ntasks, maxCalls int, withCtx bool)
 				c = CallSpec{Kind: "recv", Cmds: []CmdSpec{{Argv: []string{"SUBSCRIBE", "ch" + strconv.Itoa(r.IntN(2))}}}, TimeoutMs: 500 + r.IntN(3000)}
 			case x < 96:
 				c = CallSpec{Kind: "do", Cmds: []CmdSpec{{Argv: []string{"BLPOP", "bl" + strconv.Itoa(r.IntN(2)), pick(r, "0.2", "1", "3")}, Keys: 1, Flag: "block"}}}
+			case x < 98 && !resp2:
+				// an unsubscribe command: its confirmation arrives as a push, followed by the reply to the PING the client
+				// appends - a connection lost between the two leaves a call the reader has already taken off the queue
+				c = CallSpec{Kind: "unsub", Cmds: []CmdSpec{{Argv: []string{pick(r, "UNSUBSCRIBE", "UNSUBSCRIBE", "PUNSUBSCRIBE", "SUNSUBSCRIBE"), "ch" + strconv.Itoa(r.IntN(2))}}}}
 			default:
 				c = CallSpec{Kind: "do", Cmds: []CmdSpec{{Argv: []string{"ECHO", uid(0)}}}}
 			}
